@@ -9,6 +9,8 @@ MANTIS specification (C02).
 pieces, the S-box and the round-constant table are regenerated from `src/mantis-parallel-vec128.c`.
 -/
 import SkinnyVerif.Lemmas.VecMantis
+import SkinnyVerif.Lemmas.VecMantisCtr
+import SkinnyVerif.Properties.C05V
 import SkinnyVerif.Lemmas.MantisPieces_64le
 import SkinnyVerif.Properties.C02
 
@@ -35,5 +37,20 @@ theorem C07_mantis_vec128_spec (ks0 : MantisKey) (key : Bytes) (hk : key.length 
   intro ks
   rw [C07_mantis_vec128_block ks input tweak j hj blk tw hblk htw]
   exact (C02_mantis .c64le ks0 key tw blk hk rounds hr mode).2.2.1
+
+/-! ## the keystream batch of the Mantis vector CTR back end (`mantis_ecb_encrypt_eight`) -/
+
+/-- **keystream batch, Mantis on 128-bit vectors**: block `j` of the batch is `mantis_ecb_crypt` (the schedule's stored
+tweak) of the counter block in column `j` of the strided image; that block's big-endian value is the column value of
+`C05_vmc_increment` -/
+theorem C06_mantis_vec128_keystream (ks : MantisKey) (img : BitVec 512) (j : Nat) (hj : j < 8) (blk : Bytes)
+    (hblk : image 64 blk = laneSt img j) :
+    bytesOf 8 ((vecMantisCtr8 ks.image ks.rounds img).extractLsb' (64 * j) 64) = mantisCrypt (opsMantis .c64le) ks blk ∧
+    columnValue (pos64m j) img = valLE ((List.range 8).map (fun t => (lane 8 (7 - t) (laneSt img j)).toNat)) := by
+  have P := mantisPieces_64le
+  refine ⟨?_, vmc_column_value img j hj⟩
+  rw [vecMantisCtr8_lane _ _ _ j hj, ← hblk]
+  have hrc : (opsMantis .c64le).rc = mantis_rc_64le := rfl
+  simp only [mantisCrypt, laneMantisCtr, P.pre, P.fwd, P.mid, P.bwd, P.post, hrc, refMid, refPre]
 
 end SkinnyVerif.Properties
